@@ -64,6 +64,14 @@ pub struct Cfg {
     pub writes: u64,
     pub readers: u8,
     pub reads: u8,
+    /// before the normal writes the writer performs one write whose closure panics
+    /// before touching the payload; the caller catches the unwind and goes on
+    #[serde(default)]
+    pub panicking_first: bool,
+}
+
+const fn cfg(writes: u64, readers: u8, reads: u8, panicking_first: bool) -> Cfg {
+    Cfg { writes, readers, reads, panicking_first }
 }
 
 /// One `SeqLockReader::read` call as seen by the harness.
@@ -74,7 +82,14 @@ pub struct ReadRec {
     /// number of writes that had COMPLETED (write() returned) before read() was called
     pub completed_before: u64,
     pub value: Payload,
+    /// the read can never return: the counter is odd and the writer has finished
+    /// (the harness abandons the read; no value was returned, nothing to judge)
+    #[serde(default)]
+    pub stuck: bool,
 }
+
+/// unwinding payload with which the harness abandons a read that would spin forever
+struct StuckRead;
 
 // ---------------------------------------------------------------------------
 // mode + per-iteration state shared with the shim callbacks
@@ -92,8 +107,10 @@ struct IterState {
     fa_count: u64,
     /// readers waiting in their spin loop for the writer's next fetch_add
     parked: Vec<loom::thread::Thread>,
+    /// the writer thread has performed its last step
+    writer_done: bool,
 }
-static ITER: Mutex<IterState> = Mutex::new(IterState { sched: None, trace: Vec::new(), fa_count: 0, parked: Vec::new() });
+static ITER: Mutex<IterState> = Mutex::new(IterState { sched: None, trace: Vec::new(), fa_count: 0, parked: Vec::new(), writer_done: false });
 
 loom::thread_local! {
     static LOOM_TID: std::cell::Cell<u8> = std::cell::Cell::new(u8::MAX);
@@ -115,7 +132,10 @@ fn set_tid(t: u8) {
 
 /// The single scheduling primitive: "the calling thread is about to perform step `k`".
 /// Returns once the scheduler (loom, or the replayer) has chosen this thread to go on.
-fn sched_point(k: Kind) {
+///
+/// For `Kind::Yield` the result tells whether the spin can never end (counter odd, no
+/// fetch_add since the reader's load, writer finished); `false` otherwise.
+fn sched_point(k: Kind) -> bool {
     match MODE.load(Ordering::SeqCst) {
         MODE_LOOM if k == Kind::Yield => {
             // Spin-loop reduction. The reader loaded an odd counter and is about to
@@ -127,20 +147,28 @@ fn sched_point(k: Kind) {
             let t = LOOM_TID.with(|c| c.get());
             let seen = LOOM_SEEN_FA.with(|c| c.get());
             let me = loom::thread::current();
-            let must_wait = {
-                let mut it = ITER.lock().unwrap();
-                if it.fa_count == seen {
-                    it.parked.push(me);
-                    true
-                } else {
-                    false
+            let stuck = loop {
+                // 0 = go on, 1 = wait for the next fetch_add, 2 = no fetch_add will ever come
+                let what = {
+                    let mut it = ITER.lock().unwrap();
+                    if it.fa_count != seen {
+                        0
+                    } else if it.writer_done {
+                        2
+                    } else {
+                        it.parked.push(me.clone());
+                        1
+                    }
+                };
+                match what {
+                    0 => break false,
+                    2 => break true,
+                    _ => loom::thread::park(),
                 }
             };
-            if must_wait {
-                loom::thread::park();
-            }
             // logged when the thread goes on: what follows (up to its next step) runs now
             ITER.lock().unwrap().trace.push(Ev { t, k });
+            stuck
         }
         MODE_LOOM => {
             // never hold the std mutex across a loom operation (loom may switch to
@@ -170,13 +198,29 @@ fn sched_point(k: Kind) {
             for th in wake {
                 th.unpark();
             }
+            false
         }
         MODE_REPLAY => {
             let r = REPLAYER.lock().unwrap().clone().expect("replayer not installed");
             let t = OS_TID.with(|c| c.get());
-            r.turn(t, k);
+            r.turn(t, k)
         }
-        _ => {}
+        _ => false,
+    }
+}
+
+/// The writer has performed its last step: readers waiting for a fetch_add are released
+/// (they will find that none can come any more).
+fn writer_finished() {
+    if MODE.load(Ordering::SeqCst) == MODE_LOOM {
+        let wake = {
+            let mut it = ITER.lock().unwrap();
+            it.writer_done = true;
+            std::mem::take(&mut it.parked)
+        };
+        for th in wake {
+            th.unpark();
+        }
     }
 }
 
@@ -206,7 +250,10 @@ fn hook_fence(_order: Ordering) {
     std::sync::atomic::fence(Ordering::SeqCst);
 }
 fn hook_yield() {
-    sched_point(Kind::Yield);
+    if sched_point(Kind::Yield) {
+        // unwinds through SeqLockReader::read into reader_role (no panic hook involved)
+        std::panic::resume_unwind(Box::new(StuckRead));
+    }
 }
 
 fn install_hooks() {
@@ -217,10 +264,18 @@ fn install_hooks() {
 // thread roles (identical under loom and under the replayer)
 // ---------------------------------------------------------------------------
 
-fn writer_role(w: &SeqLockWriter<Payload>, completed: &AtomicU64, writes: u64) {
+fn writer_role(w: &SeqLockWriter<Payload>, completed: &AtomicU64, cfg: &Cfg) {
     set_tid(0);
     sched_point(Kind::Start);
-    for k in 1..=writes {
+    if cfg.panicking_first {
+        // a write whose closure panics before touching the payload; write() catches the
+        // panic, closes the write and resumes the unwind, which the caller catches here
+        let r = std::panic::catch_unwind(std::panic::AssertUnwindSafe(|| {
+            w.write(|_d: &mut Payload| std::panic::resume_unwind(Box::new("mock panic in the write closure")));
+        }));
+        assert!(r.is_err(), "the panicking write returned normally");
+    }
+    for k in 1..=cfg.writes {
         w.write(move |d: &mut Payload| {
             for i in 0..4 {
                 if i > 0 {
@@ -235,6 +290,7 @@ fn writer_role(w: &SeqLockWriter<Payload>, completed: &AtomicU64, writes: u64) {
         // write k has completed
         completed.store(k, Ordering::SeqCst);
     }
+    writer_finished();
 }
 
 fn reader_role(tid: u8, r: &SeqLockReader<Payload>, completed: &AtomicU64, reads: u8) -> Vec<ReadRec> {
@@ -245,8 +301,11 @@ fn reader_role(tid: u8, r: &SeqLockReader<Payload>, completed: &AtomicU64, reads
         // sampled in the segment that ends at read()'s first step: every write counted
         // here completed before the read started
         let k0 = completed.load(Ordering::SeqCst);
-        let v = r.read();
-        out.push(ReadRec { reader: tid, index: j, completed_before: k0, value: v });
+        match std::panic::catch_unwind(std::panic::AssertUnwindSafe(|| r.read())) {
+            Ok(v) => out.push(ReadRec { reader: tid, index: j, completed_before: k0, value: v, stuck: false }),
+            Err(p) if p.is::<StuckRead>() => out.push(ReadRec { reader: tid, index: j, completed_before: k0, value: [0; 4], stuck: true }),
+            Err(p) => std::panic::resume_unwind(p),
+        }
     }
     out
 }
@@ -257,6 +316,10 @@ fn reader_role(tid: u8, r: &SeqLockReader<Payload>, completed: &AtomicU64, reads
 
 fn oracle(cfg: &Cfg, reads: &[ReadRec]) -> Result<(), Violation> {
     for r in reads {
+        if r.stuck {
+            // no value was returned; the statement speaks about returned values only
+            continue;
+        }
         let v = r.value;
         let whole = v.iter().all(|x| *x == v[0]) && v[0] <= cfg.writes;
         if !whole {
@@ -300,6 +363,7 @@ struct Stats {
     samples: Vec<Value>,
     revalidate: Vec<(Vec<Ev>, Vec<ReadRec>)>,
     found: Option<(Violation, Vec<Ev>, Vec<ReadRec>)>,
+    stuck_reads: u64,
     cap_hit: bool,
     /// when set: every executed schedule projected on its atomic steps (cross-check)
     step_orders: Option<HashSet<Vec<Ev>>>,
@@ -329,6 +393,7 @@ fn loom_iteration(cfg: Cfg, t0: Instant, wall_cap_s: u64) {
         it.trace.clear();
         it.fa_count = 0;
         it.parked.clear();
+        it.writer_done = false;
     }
     let (writer, reader) = unsafe { SeqLock::new([0u64; 4]) };
     let completed = Arc::new(AtomicU64::new(0));
@@ -340,7 +405,7 @@ fn loom_iteration(cfg: Cfg, t0: Instant, wall_cap_s: u64) {
         handles.push(loom::thread::spawn(move || reader_role(i + 1, &r, &c, reads)));
     }
     drop(reader);
-    writer_role(&writer, &completed, cfg.writes);
+    writer_role(&writer, &completed, &cfg);
     let mut reads = vec![];
     for h in handles {
         reads.extend(h.join().expect("reader thread panicked"));
@@ -376,6 +441,10 @@ fn loom_iteration(cfg: Cfg, t0: Instant, wall_cap_s: u64) {
         st.iterations_with_retry += 1;
     }
     for r in &reads {
+        if r.stuck {
+            st.stuck_reads += 1;
+            continue;
+        }
         st.values.insert(r.value[0]);
         if r.completed_before > 0 {
             st.reads_after_completed_write += 1;
@@ -465,6 +534,7 @@ struct RState {
     branching: Vec<usize>,
     fa_count: u64,
     seen_fa: BTreeMap<u8, u64>,
+    writer_done: bool,
 }
 
 struct Replayer {
@@ -487,6 +557,7 @@ impl Replayer {
                 branching: vec![],
                 fa_count: 0,
                 seen_fa: BTreeMap::new(),
+                writer_done: false,
             }),
             cv: Condvar::new(),
         }
@@ -515,7 +586,7 @@ impl Replayer {
                 let eligible: Vec<u8> = s
                     .parked
                     .iter()
-                    .filter(|(t, k)| !(**k == Kind::Yield && s.seen_fa.get(*t).copied().unwrap_or(0) == s.fa_count))
+                    .filter(|(t, k)| s.writer_done || !(**k == Kind::Yield && s.seen_fa.get(*t).copied().unwrap_or(0) == s.fa_count))
                     .map(|(t, _)| *t)
                     .collect();
                 assert!(!eligible.is_empty(), "brute force: every live thread is spinning");
@@ -525,7 +596,8 @@ impl Replayer {
         }
     }
 
-    fn turn(&self, t: u8, k: Kind) {
+    /// Returns true for a `Yield` whose spin can never end (see `sched_point`).
+    fn turn(&self, t: u8, k: Kind) -> bool {
         let mut s = self.st.lock().unwrap();
         if s.running == Some(t) {
             s.running = None;
@@ -550,7 +622,7 @@ impl Replayer {
                         }
                         _ => {}
                     }
-                    return;
+                    return k == Kind::Yield && s.writer_done && s.seen_fa.get(&t).copied().unwrap_or(0) == s.fa_count;
                 }
                 self.cv.notify_all();
             }
@@ -562,6 +634,9 @@ impl Replayer {
         let mut s = self.st.lock().unwrap();
         if s.running == Some(t) {
             s.running = None;
+        }
+        if t == 0 {
+            s.writer_done = true;
         }
         s.live -= 1;
         self.cv.notify_all();
@@ -629,7 +704,7 @@ fn run_guided(cfg: Cfg, guide: Guide) -> ReplayOutcome {
             out
         }));
     }
-    writer_role(&writer, &completed, cfg.writes);
+    writer_role(&writer, &completed, &cfg);
     rp.finish(0);
     let mut reads = vec![];
     for h in handles {
@@ -668,6 +743,10 @@ pub fn main(cli: &Cli) {
         );
         println!("  schedule: {}", out.executed.iter().map(|e| format!("{}:{:?}", e.t, e.k)).collect::<Vec<_>>().join(" "));
         for r in &out.reads {
+            if r.stuck {
+                println!("  reader {} read #{} (writes completed before: {}) -> never returns (counter left odd, writer finished); abandoned", r.reader, r.index, r.completed_before);
+                continue;
+            }
             println!("  reader {} read #{} (writes completed before: {}) -> {:?}", r.reader, r.index, r.completed_before, r.value);
         }
         match oracle(&body.cfg, &out.reads) {
@@ -686,21 +765,26 @@ pub fn main(cli: &Cli) {
     let mut run = Run::new(cli, "model_checking");
     let thorough = cli.tier == Tier::Thorough;
     // (config, preemption bound)
-    let mut plans: Vec<(Cfg, Option<usize>)> = vec![(Cfg { writes: 2, readers: 2, reads: 1 }, Some(2))];
+    let mut plans: Vec<(Cfg, Option<usize>)> = vec![(cfg(2, 2, 1, false), Some(2))];
+    // a write whose closure panics (caught by the caller), then a normal write
+    plans.push((cfg(1, 2, 1, true), Some(2)));
     // the configuration small enough to be enumerated a second time without loom
-    let cross_checked = Cfg { writes: 1, readers: 1, reads: 1 };
+    let cross_checked = cfg(1, 1, 1, false);
     plans.push((cross_checked, None));
     if thorough {
-        plans.push((Cfg { writes: 2, readers: 1, reads: 1 }, None));
-        plans.push((Cfg { writes: 2, readers: 2, reads: 1 }, Some(4)));
-        plans.push((Cfg { writes: 3, readers: 2, reads: 2 }, Some(3)));
+        plans.push((cfg(1, 1, 1, true), None));
+        plans.push((cfg(2, 1, 1, false), None));
+        plans.push((cfg(2, 2, 1, true), Some(3)));
+        plans.push((cfg(2, 2, 1, false), Some(4)));
+        plans.push((cfg(3, 2, 2, false), Some(3)));
     }
     let wall_cap = cli.tier.pick(50u64, 1500);
     let mut all_values = BTreeSet::new();
     let mut loom_runs = vec![];
     for (cfg, bound) in plans {
         let name = format!(
-            "loom seqlock [1 writer x {} writes, {} readers x {} reads, preemption bound {}]",
+            "loom seqlock [1 writer x {}{} writes, {} readers x {} reads, preemption bound {}]",
+            if cfg.panicking_first { "(1 caught panicking write +) " } else { "" },
             cfg.writes,
             cfg.readers,
             cfg.reads,
@@ -807,7 +891,7 @@ pub fn main(cli: &Cli) {
             "loom_iterations": st.iterations, "steps_executed": st.events, "distinct_schedule_prefixes": st.prefixes.len() + 1,
             "longest_schedule": st.max_trace, "distinct_read_outcomes": st.outcomes.len(),
             "distinct_returned_values": st.values, "iterations_with_reader_retry": st.iterations_with_retry,
-            "reads_started_after_a_completed_write": st.reads_after_completed_write, "reads_returning_a_non_latest_value": st.reads_of_non_latest,
+            "reads_abandoned_because_they_can_never_return": st.stuck_reads, "reads_started_after_a_completed_write": st.reads_after_completed_write, "reads_returning_a_non_latest_value": st.reads_of_non_latest,
             "schedules_reexecuted_by_replayer_twice": revalidated, "completed": !st.cap_hit && st.found.is_none(),
             "brute_force_cross_check": brute,
         }));
